@@ -57,6 +57,9 @@ def expected_static(sc):
                 selflock = True
         out.append(dict(ratio=ratio, eff=eff, J=e['J'][1] * S.ffactor('InertiaMoment', e['J'][2])))
         prev = e
+    for op in sc.get('ops', []):
+        if op[0] == 'seteff':                 # a mating re-declared with another efficiency (right after a reset: see scen.gen_scenario)
+            out[op[1]]['eff'] = float(op[2])
     return out, selflock
 
 
